@@ -309,6 +309,61 @@ def struct_nontrivial(struct):
 
 
 # ------------------------------------------------------------------------------------------
+# encodings of the text when it is handed over as bytes (C04)
+#
+# codec -> characters of that codec that stand in for pool characters it cannot spell (None: the
+# codec spells all of Unicode).  Every codec but UTF-16 keeps ASCII bytes as they are and never
+# uses the byte 0x0A inside a multi-byte character, so its output can be cut into lines at b"\n";
+# UTF-16 only makes sense for a text handed over as one bytes object.
+CODECS = {
+    "utf-8": None,
+    "latin-1": "ñÖ",
+    "iso-8859-15": "€ž",       # 0xA4, 0xB8: differ from latin-1
+    "cp1252": "€œ",            # 0x80, 0x9C: C1 controls in latin-1
+    "koi8-r": "жЯ",
+    "euc-jp": "字あ",
+    "gb18030": None,           # multi-byte, trail bytes in the ASCII range (digits, letters)
+    "utf-16": None,
+}
+WHOLE_ONLY_CODECS = ("utf-16",)
+LINEWISE_CODECS = [c for c in CODECS if c not in WHOLE_ONLY_CODECS]
+
+
+def encodable(text, codec):
+    try:
+        return text.encode(codec).decode(codec) == text
+    except UnicodeError:
+        return False
+
+
+def _translit_str(s, codec, repl):
+    if s.isascii():
+        return s
+    return "".join(c if c.isascii() or encodable(c, codec) else repl[ord(c) % len(repl)] for c in s)
+
+
+def transliterate(struct, codec):
+    """The same structure with every character the codec cannot spell replaced by one it can.
+
+    A deterministic repair (not a filter): the shape of every line is unchanged, replacements are
+    printable non-ASCII letters/symbols of the codec.
+    """
+    repl = CODECS[codec]
+    if repl is None:
+        return struct
+
+    def walk(x):
+        if isinstance(x, str):
+            return _translit_str(x, codec, repl)
+        if isinstance(x, list):
+            return [walk(y) for y in x]
+        if isinstance(x, dict):
+            return {k: walk(v) for k, v in x.items()}
+        return x
+    return walk(struct)
+
+
+# ------------------------------------------------------------------------------------------
 # strategies for the well-formed domain (everything is constructed; no filtering)
 
 # Most draws come from small fixed pools (one Hypothesis draw each: generation cost is dominated
